@@ -44,6 +44,8 @@ func (f *Fault) err() error {
 		return context.DeadlineExceeded
 	case "oidc": // a storage that reports its failure as a ready-made OAuth error
 		return oidc.ErrServerError().WithParent(ErrInjected).WithDescription("injected storage fault")
+	case "dup-user-code": // the sentinel the DeviceAuthorizationStorage documentation names for a user-code collision
+		return op.ErrDuplicateUserCode
 	case "oidc-wrapped":
 		return fmt.Errorf("storage: %w", oidc.ErrInvalidRequest().WithParent(ErrInjected).WithDescription("injected storage fault"))
 	}
@@ -271,6 +273,9 @@ type Store struct {
 	n         int
 	lineages  int
 	NoJournal bool // concurrency checks switch the journal off (it would only grow)
+	Roll      *KeyRoll
+	rolled    bool
+	signReads int
 }
 
 func NewStore(clients []*ClientSpec, sk SignKeySpec, pol StorePolicy) *Store {
@@ -686,10 +691,30 @@ func (s *Store) SigningKey(ctx context.Context) (op.SigningKey, error) {
 	}
 	s.mu.Lock()
 	defer s.mu.Unlock()
+	// key roll-over: the storage switches to the next signing key once SigningKey has been read RollAfter times (the
+	// roll-over can thus land between two reads of one request); both public keys are published throughout
+	if s.Roll != nil && !s.rolled && s.signReads >= s.Roll.After {
+		s.SignKey, s.rolled = s.Roll.Next, true
+	}
+	s.signReads++
 	if f != nil {
 		return signingKey{s.SignKey}, f.err()
 	}
 	return signingKey{s.SignKey}, nil
+}
+
+// KeyRoll describes a signing-key roll-over of the storage (see SigningKey).
+type KeyRoll struct {
+	After int         `json:"after"` // number of SigningKey reads answered with the old key
+	Next  SignKeySpec `json:"next"`
+}
+
+// SetKeyRoll arms a roll-over and publishes the next key next to the current one.
+func (s *Store) SetKeyRoll(r KeyRoll) {
+	s.mu.Lock()
+	defer s.mu.Unlock()
+	s.Roll, s.rolled, s.signReads = &r, false, 0
+	s.PubKeys = append(s.PubKeys, PubKeySpec{KeyName: r.Next.KeyName, Alg: r.Next.Alg, KID: r.Next.KID, Use: "sig"})
 }
 
 func (s *Store) SignatureAlgorithms(ctx context.Context) ([]jose.SignatureAlgorithm, error) {
@@ -697,7 +722,15 @@ func (s *Store) SignatureAlgorithms(ctx context.Context) ([]jose.SignatureAlgori
 	if f != nil {
 		return nil, f.err()
 	}
-	return []jose.SignatureAlgorithm{jose.SignatureAlgorithm(s.SignKey.Alg)}, nil
+	s.mu.Lock()
+	defer s.mu.Unlock()
+	algs := []jose.SignatureAlgorithm{jose.SignatureAlgorithm(s.SignKey.Alg)}
+	for _, k := range s.PubKeys {
+		if a := jose.SignatureAlgorithm(k.Alg); k.Alg != "" && !slices.Contains(algs, a) {
+			algs = append(algs, a)
+		}
+	}
+	return algs, nil
 }
 
 func (s *Store) KeySet(ctx context.Context) ([]op.Key, error) {
